@@ -198,6 +198,26 @@ def bisect(ctx, rep):
         negated = False
         while isinstance(t, ast.UnaryOp) and isinstance(t.op, ast.Not):
             t, negated = t.operand, not negated
+        # np.any(width < tol) / np.all(width < tol) / (width < tol).any(): an element-wise test reduced over the lanes
+        if isinstance(t, ast.Call) and call_name(t) in ('any', 'all') and not negated:
+            inner = t.args[0] if t.args else (t.func.value if isinstance(t.func, ast.Attribute) else None)
+            inner = resolve(fn.node, inner) if isinstance(inner, ast.Name) else inner
+            if isinstance(inner, ast.Compare) and len(inner.ops) == 1 and isinstance(inner.ops[0], (ast.Lt, ast.LtE, ast.Gt, ast.GtE)):
+                l_, r_ = inner.left, inner.comparators[0]
+                small_ = isinstance(inner.ops[0], (ast.Lt, ast.LtE))
+                def width_(e_):
+                    e_ = resolve(fn.node, e_) if isinstance(e_, ast.Name) else e_
+                    return any(isinstance(x, ast.BinOp) and isinstance(x.op, ast.Sub) for x in ast.walk(e_)) and \
+                        len({al.get(x.id) for x in ast.walk(e_) if isinstance(x, ast.Name)} & {lo, hi}) == 2
+                if width_(r_) and not width_(l_):
+                    l_, r_, small_ = r_, l_, not small_
+                if width_(l_) and small_:
+                    if call_name(t) == 'any':
+                        rep.bad('D5.tol', fn, ex, 'the exit test does not compare the (maximal) bracket width with the tolerance: the loop is left as soon as ANY lane is below the '
+                                'bound: the other lanes are cut off before they converge', construct='exit test')
+                    else:
+                        rep.ok('D5.tol', fn, ex, 'stops when every bracket is below the bound', construct='exit test')
+                    continue
         if tolp and isinstance(t, ast.Compare) and len(t.ops) == 1 and isinstance(t.ops[0], (ast.Lt, ast.LtE, ast.Gt, ast.GtE)):
             left, right = t.left, t.comparators[0]
             small = isinstance(t.ops[0], (ast.Lt, ast.LtE))     # `left` is the smaller side
